@@ -168,6 +168,19 @@ fn check_fuzzy(
             .filter(|w| lev(&nq, w) <= bound as usize)
             .cloned()
             .collect();
+        if brute.len() > cap {
+            // "ordered by distance and capped": the cap keeps the closest words (ties are free)
+            let mut all: Vec<usize> = brute.iter().map(|w| lev(&nq, w)).collect();
+            all.sort();
+            all.truncate(cap);
+            let got: Vec<usize> = res.iter().map(|(_, d)| *d as usize).collect();
+            if got != all {
+                return Some((
+                    format!("fuzzy-cap-keeps-farther-words:{name}"),
+                    json!({"returned_distances": got, "closest_available": all, "results": res.iter().map(|(w,d)| (c2s(w), *d)).collect::<Vec<_>>()}),
+                ));
+            }
+        }
         if brute.len() <= cap && seen != brute {
             return Some((
                 format!("fuzzy-incomplete:{name}"),
